@@ -55,7 +55,7 @@ VAR_DEFAULT = {
 }
 PROVENANCES = ["fresh", "droplet_copy", "droplet_deepcopy", "droplet_pickle", "emulsion_copy", "emulsion_pickle",
                "etc_pickle", "etc_deepcopy", "etc_copyctor", "etc_append", "etc_append_nocopy", "etc_slice",
-               "etc_file", "shared_objects", "from_tracks"]
+               "etc_file", "shared_objects", "from_tracks", "ctor_tuples", "ctor_array_times", "ctor_one_shot_iterables"]
 # inputs that are reported in the evidence notes but not judged (see notes/audit_task.md); each entry:
 # (name, what happens, why it is not judged)
 SUSPECTED = [
@@ -207,12 +207,25 @@ def apply_provenance(hist, drops, times):
         ems = [e.copy() for e in ems]
     elif prov == "emulsion_pickle":
         ems = [pickle.loads(pickle.dumps(e)) for e in ems]
+    caller = None
     if prov in ("etc_append", "etc_append_nocopy"):
         etc = EmulsionTimeCourse()
         for e, t in zip(ems, times):
             etc.append(e, time=t, copy=(prov == "etc_append"))
+    elif prov == "ctor_tuples":          # the constructor's arguments are the caller's tuples, inspected after every call
+        caller = {"emulsions": tuple(ems), "times": tuple(times)}
+        etc = EmulsionTimeCourse(caller["emulsions"], caller["times"])
+    elif prov == "ctor_array_times":     # times: np.ndarray (documented)
+        caller = {"emulsions": list(ems), "times": np.array([float(t) for t in times], dtype=float)}
+        etc = EmulsionTimeCourse(caller["emulsions"], caller["times"])
+    elif prov == "ctor_one_shot_iterables":   # emulsions: Iterable[Emulsion] (documented) given as a generator, each
+        # emulsion built from a generator of droplets; times as an iterator over a tuple
+        caller = {"emulsions": tuple(ems), "times": tuple(times)}
+        etc = EmulsionTimeCourse((Emulsion(d for d in e) for e in caller["emulsions"]), iter(caller["times"]))
     else:
         etc = EmulsionTimeCourse(ems, list(times))
+    if caller is not None:
+        caller["before"] = _caller_snapshot(caller)
     if prov == "etc_pickle":
         etc = pickle.loads(pickle.dumps(etc))
     elif prov == "etc_deepcopy":
@@ -253,15 +266,26 @@ def apply_provenance(hist, drops, times):
                 d = have.get((float(t),) + _dkey(e[j]))
                 if d is not None:
                     list.__setitem__(e, j, d)
-    return etc
+    return etc, caller
+
+
+def _caller_snapshot(caller):
+    ts = caller["times"]
+    return (type(caller["emulsions"]).__name__, [[_dkey(d) for d in e] for e in caller["emulsions"]], [id(e) for e in caller["emulsions"]],
+            type(ts).__name__, ts.tobytes() if isinstance(ts, np.ndarray) else [repr(t) for t in ts])
 
 
 def build_input(hist):
-    """-> dict(grid, etc, refs, problems): the objects handed to the implementation and fresh reference droplets"""
+    """-> dict(grid, etc, refs, problems, caller): the objects handed to the implementation and fresh reference droplets;
+    caller: the containers given to the EmulsionTimeCourse constructor (tuples / array), inspected after every call"""
     refs = make_droplets(hist)
     times = make_times(hist)
-    etc = apply_provenance(hist, make_droplets(hist), times)
+    etc, caller = apply_provenance(hist, make_droplets(hist), times)
     problems = []
+    if caller is not None:
+        if not isinstance(etc.times, list) or not isinstance(etc.emulsions, list) or etc.times is caller["times"] \
+                or etc.emulsions is caller["emulsions"] or any(a is b for a in etc.emulsions for b in caller["emulsions"]):
+            problems.append("time course shares its times / emulsions containers (or emulsions) with the constructor's arguments")
     # the provenance must not change the values (otherwise another property's subject is broken: report, do not hide)
     ok = len(etc.times) == len(times) and len(etc.emulsions) == len(refs)
     if ok:
@@ -274,7 +298,7 @@ def build_input(hist):
                 break
     if not ok:
         problems.append(f"time course built with provenance {var_of(hist)['prov']!r} does not hold the given times / droplets")
-    return {"grid": make_grid(hist["grid"]), "etc": etc, "refs": refs, "problems": problems}
+    return {"grid": make_grid(hist["grid"]), "etc": etc, "refs": refs, "problems": problems, "caller": caller}
 
 
 def make_time_course(hist, drops=None):
@@ -304,7 +328,22 @@ def _snapshot(etc):
 
 
 def _grid_snapshot(grid):
-    return None if grid is None else (type(grid).__name__, repr(grid.state))
+    """state of a grid object including the arrays its (cached) properties hand out"""
+    if grid is None:
+        return None
+    out = [type(grid).__name__, repr(grid.state)]
+    for name in ("periodic", "shape", "axes_bounds", "discretization", "axes_coords", "cell_volume_data", "volume"):
+        try:
+            v = getattr(grid, name)
+        except Exception:  # noqa
+            continue
+        if isinstance(v, np.ndarray):
+            out.append((name, v.tobytes()))
+        elif isinstance(v, (tuple, list)) and all(isinstance(x, np.ndarray) for x in v):
+            out.append((name, [x.tobytes() for x in v]))
+        else:
+            out.append((name, repr(v)))
+    return out
 
 
 def _real_time(t):
@@ -361,7 +400,7 @@ def ident_alternatives(keys, struct):
     return alts, ("unique" if not amb else "alternatives")
 
 
-def run_impl(hist, config, deep=True, prebuilt=None):
+def run_impl(hist, config, deep=True, prebuilt=None, keep=False):
     """Run from_emulsion_time_course.  Returns dict:
        raised : None | exception class name
        tracks : list of tracks, each a list of [time, f, j]   (None if raised / not canonicalisable)
@@ -397,8 +436,12 @@ def run_impl(hist, config, deep=True, prebuilt=None):
             out["problems"].append("input time course modified")
         if _grid_snapshot(grid) != before_grid:
             out["problems"].append("grid object modified")
+        if inp.get("caller") is not None and _caller_snapshot(inp["caller"]) != inp["caller"]["before"]:
+            out["problems"].append("containers given to the EmulsionTimeCourse constructor (tuple / array) modified")
     except Exception as e:  # noqa
         out["problems"].append(f"input cannot be inspected after the call ({type(e).__name__}: {str(e)[:100]})")
+    if keep:
+        out["_res"], out["_inp"] = res, inp
     if res is None:
         return out
     try:
@@ -774,7 +817,7 @@ TIME_PATTERNS = {
 
 CHEAP_PROVENANCES = ["droplet_copy", "droplet_deepcopy", "droplet_pickle", "emulsion_copy", "emulsion_pickle",
                      "etc_pickle", "etc_deepcopy", "etc_copyctor", "etc_append", "etc_append_nocopy", "etc_slice",
-                     "shared_objects", "from_tracks"]
+                     "shared_objects", "from_tracks", "ctor_tuples", "ctor_array_times", "ctor_one_shot_iterables"]
 
 
 def random_var(rng: random.Random, dim, times, heavy=True, uniform_class=False):
@@ -1538,6 +1581,9 @@ APPEND_TIME_VALUES = [0.0, 0.0, 0.0, 1.0, -1.0, -1.5, 2.5, 10.0, 0.25]
 def random_append_case(rng: random.Random):
     dim = rng.choice([1, 2, 3])
     n = rng.choice([1, 2, 2, 3, 4, 6])
+    two = rng.random() < 0.4          # two tracks alive together, appends interleaved between them
+    if two:
+        n = max(n, 3)
     ops = []
     for i in range(n):
         how = rng.choice(["omit", "none_kw", "kw", "kw", "kw", "pos"])
@@ -1548,10 +1594,17 @@ def random_append_case(rng: random.Random):
             tt = rng.choice(["float", "float", "np.float64", "np.float32", "neg_zero"] + (["int", "int", "np.int64"] if _integral(t) else []))
             if tt == "neg_zero" and t != 0:
                 tt = "float"
-        ops.append({"how": how, "time": t, "time_type": tt,
-                    "cls": rng.choice(["spherical", "diffuse", "perturbed"]),
-                    "prov": rng.choice(["fresh", "copy", "deepcopy", "pickle", "same_object_as_previous", "member_of_emulsion"])})
-    return {"dim": dim, "ops": ops}
+        op = {"how": how, "time": t, "time_type": tt,
+              "cls": rng.choice(["spherical", "diffuse", "perturbed"]),
+              "prov": rng.choice(["fresh", "copy", "deepcopy", "pickle", "same_object_as_previous", "member_of_emulsion"])}
+        if two:
+            op["track"] = rng.choice([0, 1])
+        ops.append(op)
+    case = {"dim": dim, "ops": ops}
+    if two:
+        case["tracks"] = 2
+        case["second_track_created"] = rng.choice(["at-start", "after-first-append"])
+    return case
 
 
 def _append_time_obj(t, tt):
@@ -1562,17 +1615,28 @@ def _append_time_obj(t, tt):
 
 
 def process_append(case):
-    """-> dict(lit, fails, stats); the property statement judged: the droplet is stored as an unchanged copy, stamped with
-    the time code that was given (0 included); the default time code is compared with the model inside Coq"""
+    """-> dict(lits, fails); the property statement judged: the droplet is stored as an unchanged copy, stamped with the
+    time code that was given (0 included); the default time code is compared with the model inside Coq (per track).
+    With two tracks: the appends are interleaved, the tracks must not share lists or droplet objects, and an append to one
+    track must leave the other one as it was."""
     from droplets import DropletTrack, Emulsion
     fails = []
-    lit = None
+    lits = []
+    ntr = case.get("tracks", 1)
     try:
-        track = DropletTrack()
+        tracks = [DropletTrack()]
+        if ntr == 2 and case.get("second_track_created") == "at-start":
+            tracks.append(DropletTrack())
         prev = None
-        given = []
+        given = [[] for _ in range(ntr)]
+        used = []          # the track every append went to
         for i, op in enumerate(case["ops"]):
-            d = make_droplet([float(i + ax) for ax in range(case["dim"])] + [0.5 + i * 0.125], 
+            if ntr == 2 and len(tracks) == 1 and i >= 1:
+                tracks.append(DropletTrack())
+            k = op.get("track", 0) if len(tracks) > 1 else 0
+            track = tracks[k]
+            used.append(k)
+            d = make_droplet([float(i + ax) for ax in range(case["dim"])] + [0.5 + i * 0.125],
                              droplet_class({"cls": op["cls"]}, case["dim"], 0, 0), (i + 1) * 2.0 ** -12)
             if op["prov"] == "copy":
                 d = d.copy()
@@ -1587,6 +1651,7 @@ def process_append(case):
             before = _dkey(d)
             held = list(track.droplets)
             stamps = [float(t) for t in track.times]
+            others = [([repr(t) for t in o.times], [(id(x),) + _dkey(x) for x in o.droplets]) for o in tracks if o is not track]
             if op["how"] == "omit":
                 track.append(d)
             elif op["how"] == "none_kw":
@@ -1597,10 +1662,11 @@ def process_append(case):
                     track.append(d, time=tobj)
                 else:
                     track.append(d, tobj)
-            given.append(op["time"] if op["how"] in ("kw", "pos") else None)
-            where = f"append #{i} ({op['how']}, time={op['time']!r} as {op['time_type']})"
-            if len(track.times) != i + 1 or len(track.droplets) != i + 1:
-                fails.append(f"{where}: track holds {len(track.droplets)} droplets and {len(track.times)} times")
+            given[k].append(op["time"] if op["how"] in ("kw", "pos") else None)
+            n = len(given[k])
+            where = f"append #{i} ({op['how']}, time={op['time']!r} as {op['time_type']}" + (f", track {k})" if ntr == 2 else ")")
+            if len(track.times) != n or len(track.droplets) != n:
+                fails.append(f"{where}: track holds {len(track.droplets)} droplets and {len(track.times)} times after {n} appends")
                 break
             if not all(_real_time(t) for t in track.times):
                 fails.append(f"{where}: stored time codes {track.times!r} are not all real numbers")
@@ -1611,16 +1677,42 @@ def process_append(case):
                 fails.append(f"{where}: droplet altered")
             if any(a is not b for a, b in zip(track.droplets, held)) or [float(t) for t in track.times[:-1]] != stamps:
                 fails.append(f"{where}: earlier entries of the track changed")
-            if given[-1] is not None and float(track.times[-1]) != float(op["time"]):
+            if given[k][-1] is not None and float(track.times[-1]) != float(op["time"]):
                 fails.append(f"{where}: droplet stamped with {track.times[-1]!r}, the time code given is {op['time']!r}")
+            now = [([repr(t) for t in o.times], [(id(x),) + _dkey(x) for x in o.droplets]) for o in tracks if o is not track]
+            if now != others:
+                fails.append(f"{where}: the append changed the OTHER track")
             prev = d
-        if not fails or all(_real_time(t) for t in track.times):
-            if len(track.times) == len(given):
-                lit = (f"({vlib.listlit(given, lambda t: 'None' if t is None else '(Some ' + vlib.qlit(t) + ')')},"
-                       f"{vlib.listlit([float(t) for t in track.times], vlib.qlit)})")
+        if len(tracks) == 2:
+            a, b = tracks
+            if a.times is b.times or a.droplets is b.droplets:
+                fails.append("two tracks share their list of times / droplets")
+            if any(x is y for x in a.droplets for y in b.droplets):
+                fails.append("two tracks hold the same droplet object")
+        if ntr == 2 and len(tracks) == 2 and not case.get("_alone"):
+            # state-free reference: the appends of each track made alone, on a fresh track, give the same time codes
+            for k, track in enumerate(tracks):
+                sub = [{key: v for key, v in op.items() if key != "track"} for op, u in zip(case["ops"], used) if u == k]
+                if not sub:
+                    continue
+                alone = process_append({"dim": case["dim"], "ops": sub, "_alone": True})
+                mine = [float(t) for t in track.times] if all(_real_time(t) for t in track.times) else None
+                ref = alone.get("times")
+                if ref is not None and mine is not None and mine != ref[0]:
+                    fails.append(f"track {k} holds the time codes {mine} after appends interleaved with appends to another track; "
+                                 f"the same appends made alone give {ref[0]}")
+        for k, track in enumerate(tracks):
+            if all(_real_time(t) for t in track.times) and len(track.times) == len(given[k]):
+                lits.append(f"({vlib.listlit(given[k], lambda t: 'None' if t is None else '(Some ' + vlib.qlit(t) + ')')},"
+                            f"{vlib.listlit([float(t) for t in track.times], vlib.qlit)})")
     except Exception as e:  # noqa
         fails.append(f"append raised {type(e).__name__}: {str(e)[:150]}")
-    return {"lit": lit, "fails": fails}
+    out = {"lits": lits, "fails": fails}
+    try:
+        out["times"] = [[float(t) for t in tr.times] for tr in tracks]
+    except Exception:  # noqa
+        out["times"] = None
+    return out
 
 
 def shrink_append(case):
@@ -1633,6 +1725,14 @@ def shrink_append(case):
             del c["ops"][i]
             if c["ops"] and process_append(c)["fails"]:
                 cur, changed = c, True
+    if cur.get("tracks") == 2:
+        c = copy.deepcopy(cur)
+        c.pop("tracks")
+        c.pop("second_track_created", None)
+        for op in c["ops"]:
+            op.pop("track", None)
+        if process_append(c)["fails"]:
+            cur = c
     for op in cur["ops"]:
         for key, val in (("prov", "fresh"), ("cls", "spherical"), ("how", "kw" if op["how"] == "pos" else op["how"])):
             c = copy.deepcopy(cur)
@@ -1648,6 +1748,11 @@ def run_append_stream(ctx, rng, pid):
     for c, r in zip(cases, results):
         ctx.case(["append", c], nontrivial=len(c["ops"]) >= 2)
         ctx.count("append:ops_per_history", len(c["ops"]))
+        ctx.count("append:tracks_alive_together", c.get("tracks", 1))
+        if c.get("tracks") == 2:
+            seq = [op["track"] for op in c["ops"]]
+            ctx.count("append:interleaving", "alternating at least twice" if sum(1 for x, y in zip(seq, seq[1:]) if x != y) >= 2
+                      else "one switch" if len(set(seq)) == 2 else "all on one track")
         for i, op in enumerate(c["ops"]):
             arg = {"omit": "omitted", "none_kw": "None"}.get(op["how"])
             if arg is None:
@@ -1656,7 +1761,7 @@ def run_append_stream(ctx, rng, pid):
             ctx.count("append:time_type", op["time_type"])
             ctx.count("append:droplet_provenance", op["prov"])
             ctx.count("append:droplet_class", op["cls"])
-    lits = [(i, r["lit"]) for i, r in enumerate(results) if r["lit"] is not None]
+    lits = [(i, l) for i, r in enumerate(results) for l in r["lits"]]
     bad = _run_cases(ctx, "append", HEADER_APPEND, [l for _, l in lits], "aagree", 400)
     if bad:
         first = cases[lits[bad[0]][0]]
@@ -1671,10 +1776,369 @@ def run_append_stream(ctx, rng, pid):
                                    "found": True, "broken": ctx.broken[:3]})
             reported += 1
     if bad and not reported:
-        # the default time code (not part of the property text) differs from the model: no statement fails
+        # the default time code (not part of the property text) differs from the model: no statement fails; the smallest
+        # disagreeing append history is the replay input
         ctx.extra["append_disagreeing"] = [cases[lits[b][0]] for b in bad[:3]]
+        small = min((cases[lits[b][0]] for b in bad), key=lambda c: len(c["ops"]))
+        ctx.violations.append({"what": "time codes stored by DropletTrack.append differ from the verified model on this history of "
+                                       "appends (default time code; no statement of the property text fails on it)",
+                               "input": {"append_case": small, "kind": "append"}, "found": False, "broken": ctx.broken[:3]})
     ctx.tie.append("correspondence: time codes of histories of DropletTrack.append calls (explicit incl. 0 / omitted / None; "
-                   "keyword and positional) compared with Model/Tracking.v `appends` inside Coq")
+                   "keyword and positional; one track or two tracks with interleaved appends) compared with Model/Tracking.v "
+                   "`appends` inside Coq")
+
+
+# ---------------------------------------------------------------------------------------------
+# SEQUENCES of calls within one process (notes/input_dimensions.md item 8: state kept between calls).
+# A sequence = two time courses that share every aggregate (dimension, grid, time codes, number of frames, number of
+# droplets per frame, droplet classes) but differ in content, and a list of calls
+#     {"h": 0 | 1, "config": [method, max_dist], "objects": "shared" | "fresh"}      a tracking call
+#     {"h": 0 | 1, "raiser": kind, "objects": ...}                                    a call that is expected to fail
+# "shared": ONE time course object and ONE grid object per history serve all such calls (different methods and
+# cut-offs in the generated order); "fresh": equal objects built for this call.  Judged: every call by the property
+# oracle and (inside Coq) against the state-free model; equal calls give bit-identical results wherever they stand in
+# the sequence and whatever objects they get; inputs unchanged after every call (also after a failing one); all results
+# are kept alive together and share no droplet / list object with each other or with an input; mutating one result
+# changes no other result and no input.  Every sequence runs in a process of its own (forked from the main process
+# before any tracking call was made there); a failing sequence is re-run in a fresh interpreter for the record.
+# ---------------------------------------------------------------------------------------------
+SEQ_RAISERS = ["unknown_method", "max_dist_not_a_number", "mixed_dimension_time_course"]
+
+
+def twin_history(rng: random.Random, h):
+    """a history with the same dimension, grid, time codes, frame count, droplet counts and classes as h, other content"""
+    dim = h["dim"]
+    bounds = []
+    for ax in range(dim):
+        if isinstance(h["grid"], list):
+            bounds.append((h["grid"][ax][0], h["grid"][ax][1]))
+        else:
+            xs = [d[ax] for fr in h["frames"] for d in fr]
+            lo, hi = (min(xs), max(xs)) if xs else (0.0, 1.0)
+            bounds.append((lo, hi if hi > lo else lo + 1.0))
+    frames = []
+    for fr in h["frames"]:
+        new = []
+        for d in fr:
+            for _ in range(20):
+                pos = [lo + rng.randrange(0, 17) * (hi - lo) / 16 for lo, hi in bounds]
+                cand = pos + [d[-1] + (abs(d[-1]) if d[-1] else max(hi - lo for lo, hi in bounds)) * 2.0 ** -21]
+                if cand not in new:
+                    break
+            new.append(cand)
+        frames.append(new)
+    out = copy.deepcopy(h)
+    out["frames"] = frames
+    return out
+
+
+def random_sequence(rng: random.Random):
+    hA = random_history(rng, 4, 3)
+    while sum(len(fr) for fr in hA["frames"]) < 2:
+        hA = random_history(rng, 4, 3)
+    if hA["var"]["prov"] == "etc_file":
+        hA["var"]["prov"] = "ctor_tuples"
+    hA["var"]["reuse"] = False
+    hB = twin_history(rng, hA)
+    k = hA["var"].get("scale_pow2", 0)
+    pool = ALL_CONFIGS(_scaled_cutoffs([None, rng.choice([0.5, 1.0, 2.0]), rng.choice([0.0, 0.75, 3.0])], k))
+    calls = []
+    for i in range(rng.randint(4, 8)):
+        calls.append({"h": i % 2 if rng.random() < 0.7 else rng.choice([0, 1]), "config": list(rng.choice(pool)),
+                      "objects": "shared" if rng.random() < 0.7 else "fresh"})
+    if rng.random() < 0.8:                   # the same call again, later, on the same or on fresh objects
+        c = dict(rng.choice(calls))
+        c["objects"] = rng.choice(["shared", "fresh"])
+        calls.append(c)
+    if rng.random() < 0.5:                   # a failing call somewhere in the middle
+        calls.insert(rng.randrange(1, len(calls)), {"h": rng.choice([0, 1]), "raiser": rng.choice(SEQ_RAISERS), "objects": "shared"})
+    return {"histories": [hA, hB], "calls": calls, "mutate": rng.randrange(len(calls))}
+
+
+def _run_raiser(kind, h, inp):
+    """a call that is expected to fail (possibly after part of the work is done) -> (exception name or None, problems)"""
+    from droplets import DropletTrackList, Emulsion, EmulsionTimeCourse, SphericalDroplet
+    etc, grid = inp["etc"], inp["grid"]
+    before, before_grid = _snapshot(etc), _grid_snapshot(grid)
+    raised = None
+    try:
+        with contextlib.redirect_stderr(io.StringIO()):
+            if kind == "unknown_method":
+                DropletTrackList.from_emulsion_time_course(etc, method="nearest", grid=grid)
+            elif kind == "max_dist_not_a_number":
+                DropletTrackList.from_emulsion_time_course(etc, method="distance", grid=grid, max_dist="far")
+            else:
+                t_next = etc.times[-1] + 1 if len(etc.times) else 0
+                bad = EmulsionTimeCourse(list(etc.emulsions) + [Emulsion([SphericalDroplet(np.zeros(h["dim"] + 1), 1.0)])],
+                                         list(etc.times) + [t_next])
+                DropletTrackList.from_emulsion_time_course(bad, method="overlap")
+    except Exception as e:  # noqa
+        raised = type(e).__name__
+    problems = []
+    if _snapshot(etc) != before:
+        problems.append(f"input time course modified by a call that {'raised ' + raised if raised else 'was expected to fail'} ({kind})")
+    if _grid_snapshot(grid) != before_grid:
+        problems.append(f"grid object modified by a failing call ({kind})")
+    return raised, problems
+
+
+def _raw_sig(res):
+    """bit-exact content of a result, in the order returned"""
+    raw = res.get("_res")
+    if raw is None:
+        return ("raised", res["raised"])
+    return [([repr(t) for t in tr.times], [_dkey(d) for d in tr.droplets]) for tr in raw]
+
+
+def isolated_sig(arg):
+    """the result of one call on fresh objects, made first thing in a process of its own (fresh-state reference)"""
+    h, cfg = arg
+    return _raw_sig(run_impl(h, tuple(cfg), deep=False, keep=True))
+
+
+def process_sequence(arg):
+    seq, pid = arg[0], arg[1]
+    reference = arg[2] if len(arg) > 2 else None      # {(h, config as json): isolated_sig}
+    hists = seq["histories"]
+    fails, lits = [], []
+    stats = {"calls": 0, "raisers": [], "shared": 0, "fresh": 0, "repeated": 0, "switches": 0, "orders": set()}
+    try:
+        tables = [impl_tables(h) for h in hists]
+    except TableError as e:
+        return {"lits": [], "fails": [(0, "metric: " + str(e))], "stats": None}
+    shared = [None, None]
+    done = []          # per call: None (raiser) or the result dict with the raw objects
+    inputs = []        # every input object that was used
+    try:
+        for i, call in enumerate(seq["calls"]):
+            h = hists[call["h"]]
+            if call["objects"] == "shared":
+                if shared[call["h"]] is None:
+                    shared[call["h"]] = build_input(h)
+                    inputs.append(shared[call["h"]])
+                inp = shared[call["h"]]
+            else:
+                inp = build_input(h)
+                inputs.append(inp)
+            stats[call["objects"]] += 1
+            if "raiser" in call:
+                raised, problems = _run_raiser(call["raiser"], h, inp)
+                stats["raisers"].append((call["raiser"], raised is not None))
+                fails += [(i, p) for p in problems]
+                done.append(None)
+                continue
+            cfg = tuple(call["config"])
+            res = run_impl(h, cfg, deep=False, prebuilt=inp, keep=True)
+            stats["calls"] += 1
+            ov, D = tables[call["h"]]
+            try:
+                fs = oracle_C06(h, cfg, res, ov) if pid == "C06" else oracle_C07(h, cfg, res, ov, D) + drift_failures(h, cfg, res)
+            except Exception as e:  # noqa
+                fs = [f"result cannot be judged by the property oracle ({type(e).__name__}: {str(e)[:120]})"]
+            fails += [(i, f"call #{i} {call}: {f}") for f in fs]
+            done.append(res)
+    except Exception as e:  # noqa
+        fails.append((len(done), f"sequence could not be carried out ({type(e).__name__}: {str(e)[:150]})"))
+    # equal calls, equal results (bit-identical, order of the tracks included)
+    first = {}
+    prev_h = None
+    for i, (call, res) in enumerate(zip(seq["calls"], done)):
+        if res is None:
+            continue
+        stats["switches"] += prev_h is not None and prev_h != call["h"]
+        prev_h = call["h"]
+        key = (call["h"], json_key(call["config"]))
+        sig = _raw_sig(res)
+        if reference is not None and key in reference and reference[key] != sig:
+            fails.append((i, f"call #{i} {call} gives another result in this sequence than the same call made first in a fresh "
+                             f"process ({len(sig) if isinstance(sig, list) else sig} vs "
+                             f"{len(reference[key]) if isinstance(reference[key], list) else reference[key]} tracks)"))
+        if key in first:
+            stats["repeated"] += 1
+            j, sig0 = first[key]
+            if sig != sig0:
+                fails.append((i, f"call #{i} {call} gives another result than the equal call #{j} {seq['calls'][j]} earlier in the "
+                                 f"sequence ({len(sig) if isinstance(sig, list) else sig} vs {len(sig0) if isinstance(sig0, list) else sig0} tracks)"))
+        else:
+            first[key] = (i, sig)
+    for hi in (0, 1):
+        stats["orders"].add(tuple(json_key(c["config"]) for c in seq["calls"] if c["h"] == hi and "config" in c and c["objects"] == "shared"))
+    # results kept alive together: no shared objects
+    try:
+        owner = {}
+        for n, inp in enumerate(inputs):
+            for x in [inp["etc"].times, inp["etc"].emulsions] + list(inp["etc"].emulsions):
+                owner.setdefault(id(x), set()).add(f"input {n}")
+            for e in inp["etc"].emulsions:
+                for d in e:
+                    owner.setdefault(id(d), set()).add(f"input {n}")
+        for i, res in enumerate(done):
+            raw = None if res is None else res.get("_res")
+            if raw is None:
+                continue
+            owner.setdefault(id(raw), set()).add(f"result of call #{i}")
+            for tr in raw:
+                for x in [tr, tr.times, tr.droplets] + list(tr.droplets):
+                    owner.setdefault(id(x), set()).add(f"result of call #{i}")
+        for who in owner.values():
+            if len(who) > 1:
+                fails.append((len(done) - 1, f"an object (droplet / list of times / list of droplets / track) is shared between {sorted(who)}"))
+                break
+        # mutate one result: nothing else may change
+        alive = [i for i, res in enumerate(done) if res is not None and res.get("_res") is not None]
+        if alive:
+            m = min(alive, key=lambda i: (abs(i - seq.get("mutate", 0)), i))
+            snaps = {i: _raw_sig(done[i]) for i in alive if i != m}
+            in_snaps = [(_snapshot(inp["etc"]), _grid_snapshot(inp["grid"])) for inp in inputs]
+            raw = done[m]["_res"]
+            for tr in list(raw):
+                tr.times.append(1e9)
+                if tr.droplets:
+                    tr.droplets[0].data["radius"] = 12345.0
+                    tr.droplets[0].position[...] = -777.0
+                    tr.droplets.pop()
+            raw.clear()
+            for i, sn in snaps.items():
+                if _raw_sig(done[i]) != sn:
+                    fails.append((max(i, m), f"mutating the result of call #{m} changed the result of call #{i} (shared buffers)"))
+                    break
+            for n, inp in enumerate(inputs):
+                if (_snapshot(inp["etc"]), _grid_snapshot(inp["grid"])) != in_snaps[n]:
+                    fails.append((m, f"mutating the result of call #{m} changed an input time course / grid (shared buffers)"))
+                    break
+    except Exception as e:  # noqa
+        fails.append((len(done) - 1, f"results cannot be inspected ({type(e).__name__}: {str(e)[:150]})"))
+    for hi, h in enumerate(hists):
+        outs = [(tuple(c["config"]), r) for c, r in zip(seq["calls"], done) if r is not None and c["h"] == hi]
+        if outs:
+            lits.append(gcase_lit(h, tables[hi][0], tables[hi][1], outs))
+    stats["orders"] = len({o for o in stats["orders"] if len(o) > 1})
+    return {"lits": lits, "fails": fails, "stats": stats}
+
+
+def json_key(x):
+    import json
+    return json.dumps(x)
+
+
+def _fork_map(fn, items):
+    """every item in a process of its own, forked from this one"""
+    import multiprocessing as mp
+    if not items:
+        return []
+    with mp.get_context("fork").Pool(min(vlib.NPROC, 16), maxtasksperchild=1) as pool:
+        return pool.map(fn, items, chunksize=1)
+
+
+def _fresh_interpreter_fails(seq, pid):
+    """the sequence evaluated first thing in a fresh interpreter -> list of failure texts (None: could not be run)"""
+    import json
+    import subprocess
+    import sys
+    code = ("import sys, json\nimport tracking_common as tc\nseq = json.load(sys.stdin)\n"
+            f"r = tc.process_sequence((seq, {pid!r}))\nprint('FAILS=' + json.dumps([f for _, f in r['fails']]))\n")
+    try:
+        p = subprocess.run([sys.executable, "-c", code], input=json.dumps(seq), capture_output=True, text=True, timeout=600)
+        for line in p.stdout.splitlines():
+            if line.startswith("FAILS="):
+                return json.loads(line[6:])
+    except Exception:  # noqa
+        pass
+    return None
+
+
+def sequence_reference(seq):
+    keys = sorted({(c["h"], json_key(c["config"])) for c in seq["calls"] if "config" in c})
+    import json
+    sigs = _fork_map(isolated_sig, [(seq["histories"][h], json.loads(cfg)) for h, cfg in keys])
+    return dict(zip(keys, sigs))
+
+
+def shrink_sequence(seq, pid, reference=None):
+    """drop calls (each candidate evaluated in a forked process) while the sequence keeps failing"""
+    def failing(s):
+        ref = sequence_reference(s) if reference is not None else None    # the histories' assembly may have changed
+        return bool(_fork_map(process_sequence, [(s, pid, ref)])[0]["fails"])
+    cur = copy.deepcopy(seq)
+    for _ in range(3):
+        changed = False
+        for i in range(len(cur["calls"]) - 1, -1, -1):
+            if len(cur["calls"]) <= 1:
+                break
+            c = copy.deepcopy(cur)
+            del c["calls"][i]
+            if failing(c):
+                cur, changed = c, True
+        if not changed:
+            break
+    for hi in (0, 1):       # simpler assembly of the time courses
+        for key, val in VAR_SIMPLE.items():
+            if cur["histories"][hi].get("var", {}).get(key, val) != val:
+                c = copy.deepcopy(cur)
+                c["histories"][hi]["var"][key] = val
+                if failing(c):
+                    cur = c
+    return cur
+
+
+def run_sequence_stream(ctx, rng, pid):
+    seqs = [random_sequence(rng) for _ in range(ctx.scale(120, 1000))]
+    results = _fork_map(process_sequence, [(s, pid) for s in seqs])
+    lits = []
+    for n, (sq, r) in enumerate(zip(seqs, results)):
+        ctx.case(["sequence", sq], nontrivial=True)
+        ctx.count("sequence:calls_per_sequence", len(sq["calls"]))
+        st = r["stats"]
+        if st:
+            ctx.count("sequence:tracking_calls", "total", st["calls"])
+            ctx.count("sequence:objects", "shared time course + grid object", st["shared"])
+            ctx.count("sequence:objects", "fresh equal objects", st["fresh"])
+            ctx.count("sequence:equal_call_repeated_later", "calls", st["repeated"])
+            ctx.count("sequence:switches_between_the_two_time_courses", st["switches"] if st["switches"] < 4 else ">=4")
+            ctx.count("sequence:shared_object_tracked_with_several_configs_in_order", "sequences", st["orders"])
+            for kind, raised in st["raisers"]:
+                ctx.count("sequence:failing_call_in_the_middle", f"{kind}: {'raised' if raised else 'did not raise on this input'}")
+            if not st["raisers"]:
+                ctx.count("sequence:failing_call_in_the_middle", "none")
+        ctx.count("sequence:provenance_of_the_time_courses", var_of(sq["histories"][0])["prov"])
+        lits += [(n, l) for l in r["lits"]]
+    bad = _run_cases(ctx, "seq", HEADER, [l for _, l in lits], "gagree", 100)
+    reported = 0
+    for sq, r in zip(seqs, results):
+        if r["fails"] and reported < 2:
+            small = shrink_sequence(sq, pid)
+            rr = _fork_map(process_sequence, [(small, pid)])[0]
+            fresh = _fresh_interpreter_fails(small, pid)
+            ctx.violations.append({"what": (rr["fails"] or r["fails"])[0][1],
+                                   "input": {"sequence": small, "kind": "sequence"}, "found": True,
+                                   "reproduces_in_a_fresh_interpreter": bool(fresh) if fresh is not None else "not run",
+                                   "broken": ctx.broken[:3]})
+            reported += 1
+    if bad:
+        sq = seqs[lits[bad[0]][0]]
+        ctx.broken.append(f"correspondence (sequences of calls in one process): model and implementation differ on {len(bad)} "
+                          f"(time course, calls) group(s), first sequence: {str(sq)[:600]}")
+        # the model says some result is not the state-free one: compare every call of the disagreeing sequences with the
+        # same call made first in a process of its own; a difference is a failing input (the sequence)
+        for n in sorted({lits[b][0] for b in bad})[:6]:
+            if reported >= 2:
+                break
+            ref = sequence_reference(seqs[n])
+            r2 = _fork_map(process_sequence, [(seqs[n], pid, ref)])[0]
+            if r2["fails"]:
+                small = shrink_sequence(seqs[n], pid, reference=ref)
+                rr = _fork_map(process_sequence, [(small, pid, sequence_reference(small))])[0]
+                ctx.violations.append({"what": (rr["fails"] or r2["fails"])[0][1],
+                                       "input": {"sequence": small, "kind": "sequence", "with_fresh_process_reference": True},
+                                       "found": True, "broken": ctx.broken[:3]})
+                reported += 1
+        if not reported:
+            # neither a statement of the property text nor the fresh-process reference separates this sequence: the
+            # deviation from the model is not a matter of the sequence; reported (found = False) only if nothing else is
+            ctx.extra["_sequence_unexplained"] = sq
+    ctx.tie.append("sequences: several tracking calls in one process on two look-alike time courses (shared / fresh objects, "
+                   "methods and cut-offs in generated orders, a failing call in between), each result compared with the state-free "
+                   "model inside Coq and with the equal calls of the sequence; results kept alive together and mutated")
 
 
 VAR_SIMPLE = {"cls": "spherical", "tag": False, "prov": "fresh", "time_type": "float", "neg_zero": False, "md_type": "float",
@@ -1913,14 +2377,24 @@ def _run_cases(ctx, name, header, lits, fn, shard):
     return bad
 
 
+def _stage(ctx, name):
+    import time
+    now = time.time()
+    st = ctx.extra.setdefault("stage_wall_s", {})
+    st[name] = round(now - ctx.extra.get("_stage_t", ctx.t0), 1)
+    ctx.extra["_stage_t"] = now
+
+
 def run_check(ctx, pid, deps):
     rng = random.Random(ctx.seed)
     vlib.prove(ctx, deps, gens=[])
+    _stage(ctx, "proofs")
     ctx.tie.append("correspondence: Model/Tracking.v evaluated inside Coq on the implementation's overlap relation / "
                    "cdist table, compared with DropletTrackList.from_emulsion_time_course (both methods, 3 cut-offs, +-grid)")
     lat, gen, tabtext = build_items(ctx, rng, pid)
     items = lat + gen
     results = _pool_map(process, items)
+    _stage(ctx, "implementation + oracles on the histories")
     for item, r in zip(items, results):
         _count_item(ctx, item, r)
     for idx in (len(lat) // 3, len(lat) + len(gen) // 2):
@@ -1930,6 +2404,7 @@ def run_check(ctx, pid, deps):
     bad_l = _run_cases(ctx, "lat", HEADER + tabtext, [r["lit"] for r in results[:len(lat)]], "lagree", 300)
     gidx = [i for i in range(len(lat), len(items)) if results[i]["lit"] is not None]
     bad_g = _run_cases(ctx, "gen", HEADER, [results[i]["lit"] for i in gidx], "gagree", 100)
+    _stage(ctx, "correspondence inside Coq")
     bad = list(bad_l) + [gidx[b] for b in bad_g]
     if pid == "C07":
         mlits = [m for r in results for m in r["metric"]][:ctx.scale(1500, 12000)]
@@ -1940,6 +2415,8 @@ def run_check(ctx, pid, deps):
                               f"on {len(bad_m)} pair(s), first: {mlits[bad_m[0]][:300]}")
     if pid == "C06":
         run_append_stream(ctx, rng, pid)
+    run_sequence_stream(ctx, random.Random(ctx.seed + 8), pid)
+    _stage(ctx, "append + sequence streams")
     ctx.notes.append("oracle only (not inside Coq): histories of >= 1100 frames (kind long-oracle-only); the metric comparison "
                      "with Model/Grid.v is restricted to Cartesian grids (cylindrical / spherical / polar grid objects enter "
                      "the correspondence and the other statements through the implementation's own tables)")
@@ -1964,6 +2441,11 @@ def run_check(ctx, pid, deps):
         res2 = _pool_map(process, extra)
         ctx.notes.append(f"search: oracle over {len(extra)} further histories")
         record_violations(ctx, pid, extra, res2)
+    sq = ctx.extra.pop("_sequence_unexplained", None)
+    if sq is not None and not ctx.violations:
+        ctx.violations.append({"what": "in a sequence of calls within one process the implementation differs from the verified "
+                                       "(state-free) model; no statement of the property text fails on it",
+                               "input": {"sequence": sq, "kind": "sequence"}, "found": False, "broken": ctx.broken[:3]})
     if bad and not ctx.violations:
         # no statement of the property text fails, but the implementation no longer is the verified model:
         # report the smallest disagreeing history (and the config on which it disagrees) as replay input
@@ -1978,6 +2460,7 @@ def run_check(ctx, pid, deps):
                                            "property text fails on it: see `./check %s --replay` for both results)" % pid,
                                    "input": {"history": it["hist"], "config": list(cfg), "kind": it["kind"]},
                                    "found": False, "broken": ctx.broken[:3]})
+    ctx.extra.pop("_stage_t", None)
     return vlib.finish(ctx, "", TRUSTED, ASSUME, RULE, exhaustive=True)
 
 
@@ -1989,10 +2472,15 @@ def replay(path, pid):
     if not inp:
         print("no concrete input stored (no-failing-input-found replay)")
         return 1
+    if "sequence" in inp:
+        ref = sequence_reference(inp["sequence"]) if inp.get("with_fresh_process_reference") else None
+        r = _fork_map(process_sequence, [(inp["sequence"], pid, ref)])[0]
+        print("oracle failures on current tree:", [f for _, f in r["fails"]])
+        return 1 if r["fails"] else 0
     if "append_case" in inp:
         r = process_append(inp["append_case"])
         print("oracle failures on current tree:", r["fails"])
-        print("time arguments / stored time codes:", r["lit"])
+        print("time arguments / stored time codes (per track):", r["lits"])
         return 1 if r["fails"] else 0
     hist, cfg, kind = inp["history"], tuple(inp["config"]), inp.get("kind", "random")
     full = not strictly_increasing(hist["times"])
